@@ -1,9 +1,15 @@
 (* C03  Tile grids tile the plane: exact, gap-free and consistent coordinate arithmetic.
-   Property theorems only; proofs in theories/Grid_proofs.v. *)
+   Property theorems only; proofs in theories/Grid_proofs.v (hand model theories/Grid.v) and
+   theories/Grid_gen_proofs.v (hand model = definitions generated from mapproxy/grid.py).
+   Conventions: all coordinates / resolutions are integers in units of a common quantum; wf g = non-degenerate
+   bbox, positive tile size, positive resolutions; inset g l = res_at g l / 10 is the 1/10 pixel of
+   get_affected_level_tiles. *)
 From Coq Require Import ZArith List Bool.
 Import ListNotations.
-From MP Require Import Grid Grid_proofs.
+From MP Require Import Grid Grid_proofs Gen_grid_int Grid_gen_proofs.
 Local Open Scope Z_scope.
+
+(* ---------------------------------------------------------------- partition *)
 
 (* The tile found for a point contains that point (half-open rectangles; a tile of a north-west numbered
    grid owns its top edge). *)
@@ -31,3 +37,202 @@ Theorem tile_bbox_adjacent_rows :
     let '(_, y0', _, y1') := tile_bbox g x (y + 1) l in
     if ul g then y0 = y1' else y1 = y0'.
 Proof. exact Grid_proofs.tile_bbox_adjacent_y. Qed.
+
+(* The valid tiles (limit_tile t = Some t) of a level own exactly the "tiled area", a rectangle anchored at the
+   origin corner of the grid bbox whose far edges miss less than one pixel of that level of the bbox (they may
+   also extend beyond it); the last column / row starts inside the bbox.  The uncovered strip is a consequence
+   of the floor division in _calc_grids; it is stated here, not hidden. *)
+Theorem grid_covers_bbox_upto_one_pixel :
+  forall g l, wf g -> valid_level g l = true ->
+    let '(nx, ny) := grid_size g l in
+    let r := res_at g l in
+    (gx1 g - gx0 g) - r < nx * (r * tw g) /\ (gy1 g - gy0 g) - r < ny * (r * th g) /\
+    (nx - 1) * (r * tw g) < gx1 g - gx0 g /\ (ny - 1) * (r * th g) < gy1 g - gy0 g /\
+    (forall px py, let '(tx, ty) := tile g px py l in
+                   limit_tile g tx ty l = Some (tx, ty, l) <-> in_tiled_area g l px py).
+Proof. exact Grid_proofs.grid_covers_bbox_upto_one_pixel. Qed.
+
+(* ---------------------------------------------------------------- flipping *)
+
+(* Flipping between south-west and north-west numbering is an involution ... *)
+Theorem flip_involutive :
+  forall g x y l,
+    let '(x', y', l') := flip_tile_coord g x y l in flip_tile_coord g x' y' l' = (x, y, l).
+Proof. exact Grid_proofs.flip_involutive. Qed.
+
+(* ... that maps tiles of the grid to tiles of the grid ... *)
+Theorem flip_preserves_validity :
+  forall g x y l,
+    limit_tile g x y l = Some (x, y, l) ->
+    let '(x', y', l') := flip_tile_coord g x y l in limit_tile g x' y' l' = Some (x', y', l').
+Proof. exact Grid_proofs.flip_preserves_validity. Qed.
+
+(* ... and preserves the ground rectangle whenever the service offers it: if supports_access_with_origin g o then
+   the rectangle of every tile of g equals the rectangle that the coordinate used with origin o
+   (coord_for_origin: unchanged for the grid's own origin, flipped otherwise) has in the grid numbered from
+   corner o (set_origin g o), up to a vertical shift d no larger than the tolerance of the compatibility test,
+   |d| <= max(|y0|, |y1|) / 10^12 ... *)
+Theorem flip_preserves_rectangle :
+  forall g o x y l, wf g -> valid_level g l = true -> supports_access_with_origin g o = true ->
+    let '(x', y', l') := coord_for_origin g o x y l in
+    exists d, Z.abs d * ten12 <= ymag g /\
+              tile_bbox (set_origin g o) x' y' l' = shift_y (tile_bbox g x y l) d.
+Proof. exact Grid_proofs.flip_preserves_rectangle. Qed.
+
+(* ... which is no shift at all when the coordinates are below 10^12 quanta (the tolerance is below one quantum). *)
+Theorem flip_preserves_rectangle_exact :
+  forall g o x y l, wf g -> valid_level g l = true -> supports_access_with_origin g o = true -> ymag g < ten12 ->
+    let '(x', y', l') := coord_for_origin g o x y l in
+    tile_bbox (set_origin g o) x' y' l' = tile_bbox g x y l.
+Proof. exact Grid_proofs.flip_preserves_rectangle_exact. Qed.
+
+(* Without the test the rectangle moves by the misalignment of the level (for every grid, aligned or not). *)
+Theorem flip_rectangle_shift :
+  forall g x y l,
+    let '(x', y', l') := flip_tile_coord g x y l in
+    tile_bbox (set_origin g (negb (ul g))) x' y' l' =
+    shift_y (tile_bbox g x y l) (if ul g then - misalign g l else misalign g l).
+Proof. exact Grid_proofs.flip_rectangle_shift. Qed.
+
+(* ---------------------------------------------------------------- tiles reported for a rectangle *)
+
+(* Cover: every point of the query rectangle that lies at least 1/10 pixel inside it has its tile in the list:
+   as limit_tile of that tile, i.e. as `Some t` whenever the point lies in the tiled area of the grid (see
+   grid_covers_bbox_upto_one_pixel), and the call does not fail. *)
+Theorem affected_tiles_cover :
+  forall g b l px py, wf g -> valid_level g l = true ->
+    let '(bx0, by0, bx1, by1) := b in
+    bx0 + inset g l <= px <= bx1 - inset g l -> by0 + inset g l <= py <= by1 - inset g l ->
+    exists ab n m ts, affected_level_tiles g b l = Affected ab n m ts /\
+      let '(tx, ty) := tile g px py l in In (limit_tile g tx ty l) ts.
+Proof. exact Grid_proofs.affected_tiles_cover. Qed.
+
+(* No tile merely touches the rectangle: every listed tile overlaps it by at least 1/10 pixel in both axes
+   (for rectangles at least 1/10 pixel wide and high) ... *)
+Theorem affected_tiles_no_touch :
+  forall g b l ab n m ts x y l', wf g -> valid_level g l = true ->
+    affected_level_tiles g b l = Affected ab n m ts -> In (Some (x, y, l')) ts ->
+    let '(bx0, by0, bx1, by1) := b in
+    inset g l <= bx1 - bx0 -> inset g l <= by1 - by0 ->
+    let '(x0, y0, x1, y1) := tile_bbox g x y l in
+    inset g l <= Z.min x1 bx1 - Z.max x0 bx0 /\ inset g l <= Z.min y1 by1 - Z.max y0 by0.
+Proof. exact Grid_proofs.affected_tiles_no_touch. Qed.
+
+(* ... in general: its rectangle reaches at least 1/10 pixel into the query rectangle from each side. *)
+Theorem affected_tiles_reach_inside :
+  forall g b l ab n m ts x y l', wf g -> valid_level g l = true ->
+    affected_level_tiles g b l = Affected ab n m ts -> In (Some (x, y, l')) ts ->
+    let '(bx0, by0, bx1, by1) := b in
+    let '(x0, y0, x1, y1) := tile_bbox g x y l in
+    l' = l /\ x0 <= bx1 - inset g l /\ bx0 + inset g l <= x1 /\ y0 <= by1 - inset g l /\ by0 + inset g l <= y1.
+Proof. exact Grid_proofs.affected_tiles_reach_inside. Qed.
+
+(* Row by row from the top, for both origins: the list has m rows of n entries; entry j*n + i is limit_tile of
+   column (west column + i) in row aff_row j, where row 0 is the row containing the top edge of the inset
+   rectangle and row j+1 lies directly below row j (its index is +1 for north-west, -1 for south-west grids). *)
+Theorem affected_tiles_row_major_from_top :
+  forall g b l ab n m ts, valid_level g l = true ->
+    affected_level_tiles g b l = Affected ab n m ts ->
+    let '(bx0, by0, bx1, by1) := b in
+    let '(cx0, cy0) := tile g (bx0 + inset g l) (by0 + inset g l) l in
+    let '(cx1, cy1) := tile g (bx1 - inset g l) (by1 - inset g l) l in
+    n = cx1 - cx0 + 1 /\ m = (if ul g then cy0 - cy1 else cy1 - cy0) + 1 /\ 1 <= n /\ 1 <= m /\
+    length ts = (Z.to_nat m * Z.to_nat n)%nat /\
+    (forall i j, (i < Z.to_nat n)%nat -> (j < Z.to_nat m)%nat ->
+       nth (j * Z.to_nat n + i) ts None = limit_tile g (cx0 + Z.of_nat i) (aff_row g b l j) l) /\
+    aff_row g b l 0 = cy1 /\
+    (forall x j, let '(_, _, _, y1) := tile_bbox g x (aff_row g b l j) l in
+                 let '(_, y0', _, y1') := tile_bbox g x (aff_row g b l (S j)) l in
+                 y1' = y1 - res_at g l * th g /\ y0' = y1' - res_at g l * th g).
+Proof. exact Grid_proofs.affected_tiles_row_major_from_top. Qed.
+
+(* An entry is `Some t` exactly for the tiles of the grid: every entry is limit_tile of a block position and
+   every `Some t` satisfies limit_tile t = Some t. *)
+Theorem affected_tiles_valid :
+  forall g b l ab n m ts, valid_level g l = true ->
+    affected_level_tiles g b l = Affected ab n m ts ->
+    (forall e, In e ts -> exists x y, In x (aff_cols g b l) /\ In y (aff_rows g b l) /\ e = limit_tile g x y l) /\
+    (forall t, In (Some t) ts -> let '(x, y, l') := t in limit_tile g x y l' = Some t).
+Proof. exact Grid_proofs.affected_tiles_valid. Qed.
+
+(* The reported bbox is the rectangle of the listed block: from the lower left corner of the tile containing the
+   lower left inset corner to the upper right corner of the tile containing the upper right inset corner. *)
+Theorem affected_bbox_is_block :
+  forall g b l ab n m ts, wf g -> valid_level g l = true ->
+    affected_level_tiles g b l = Affected ab n m ts ->
+    let '(bx0, by0, bx1, by1) := b in
+    let '(cx0, cy0) := tile g (bx0 + inset g l) (by0 + inset g l) l in
+    let '(cx1, cy1) := tile g (bx1 - inset g l) (by1 - inset g l) l in
+    let '(x0, y0, _, _) := tile_bbox g cx0 cy0 l in
+    let '(_, _, x1, y1) := tile_bbox g cx1 cy1 l in
+    cx0 <= cx1 /\ (if ul g then cy1 <= cy0 else cy0 <= cy1) /\ ab = (x0, y0, x1, y1).
+Proof. exact Grid_proofs.affected_bbox_is_block. Qed.
+
+(* The call is refused (GridError 'Invalid BBOX') exactly when the tiles of the two inset corners are in the wrong
+   order (possible only for rectangles thinner than 2/10 pixel, see affected_tiles_cover). *)
+Theorem affected_invalid_iff :
+  forall g b l,
+    let '(bx0, by0, bx1, by1) := b in
+    let '(cx0, cy0) := tile g (bx0 + inset g l) (by0 + inset g l) l in
+    let '(cx1, cy1) := tile g (bx1 - inset g l) (by1 - inset g l) l in
+    affected_level_tiles g b l = InvalidBBOX <-> (cx1 < cx0 \/ if ul g then cy0 < cy1 else cy1 < cy0).
+Proof. exact Grid_proofs.affected_invalid_iff. Qed.
+
+(* ---------------------------------------------------------------- level choice *)
+
+(* For a requested resolution res = rn/rd and stretch factor sf_n/sf_d >= 1 on a strictly decreasing resolution
+   list: if some level has res <= r_l <= res * stretch the result is the finest such level; otherwise the
+   coarsest level with r_l < res; otherwise the last level.
+   level_within g rn rd l := rn <= r_l * rd /\ r_l * rd * sf_d <= rn * sf_n;  level_finer g rn rd l := r_l * rd < rn. *)
+Theorem closest_level_spec :
+  forall g rn rd,
+    decreasing_res g -> 0 < levels g -> 0 < rd -> 0 < rn -> 0 < sf_d g <= sf_n g ->
+    let k := closest_level g rn rd in
+    0 <= k < levels g /\
+    ((level_within g rn rd k /\ forall j, k < j < levels g -> ~ level_within g rn rd j)
+     \/ ((forall j, 0 <= j < levels g -> ~ level_within g rn rd j) /\
+         level_finer g rn rd k /\ forall j, 0 <= j < k -> ~ level_finer g rn rd j)
+     \/ ((forall j, 0 <= j < levels g -> ~ level_within g rn rd j /\ ~ level_finer g rn rd j) /\ k = levels g - 1)).
+Proof. exact Grid_proofs.closest_level_spec. Qed.
+
+(* The specification determines the level: closest_level is the only function satisfying it. *)
+Theorem closest_level_spec_unique :
+  forall g rn rd k k',
+    closest_level_spec_of g rn rd k -> closest_level_spec_of g rn rd k' -> k = k'.
+Proof. exact Grid_proofs.closest_level_spec_unique. Qed.
+
+(* get_affected_bbox_and_level (request in the grid SRS): a level is returned exactly when the rectangle intersects
+   the grid bbox and the requested resolution rn/rd = min(w/sx, h/sy) does not exceed res_0 * max_shrink_factor
+   (otherwise NoTiles); the level is closest_level of that resolution. *)
+Theorem affected_level_spec :
+  forall g b sx sy k,
+    let '(rn, rd) := get_resolution b sx sy in
+    affected_level g b sx sy = Some k <->
+    (bbox_intersects (gx0 g, gy0 g, gx1 g, gy1 g) b = true /\
+     rn * shr_d g <= res_at g 0 * shr_n g * rd /\ k = closest_level g rn rd).
+Proof. exact Grid_proofs.affected_level_spec. Qed.
+
+Theorem get_resolution_spec :
+  forall b sx sy, 0 < sx -> 0 < sy ->
+    let '(x0, y0, x1, y1) := b in
+    let '(rn, rd) := get_resolution b sx sy in
+    0 < rd /\ rn * sx <= Z.abs (x0 - x1) * rd /\ rn * sy <= Z.abs (y0 - y1) * rd /\
+    (rn * sx = Z.abs (x0 - x1) * rd \/ rn * sy = Z.abs (y0 - y1) * rd).
+Proof. exact Grid_proofs.get_resolution_spec. Qed.
+
+(* ---------------------------------------------------------------- tie of the integer helpers to the source *)
+
+(* The hand-written flip_tile_coord, limit_tile (integer levels) and create_tile_list of the model are equal to
+   the definitions generated from the Python source of TileGrid.flip_tile_coord, TileGrid.limit_tile and
+   _create_tile_list (gs z = self.grid_sizes[z], levels = self.levels). *)
+Theorem flip_tile_coord_is_generated :
+  forall g x y l, gen_flip_tile_coord (levels g) (grid_size g) x y l = flip_tile_coord g x y l.
+Proof. exact Grid_gen_proofs.flip_tile_coord_generated. Qed.
+
+Theorem limit_tile_is_generated :
+  forall g x y l, gen_limit_tile (levels g) (grid_size g) x y l = limit_tile g x y l.
+Proof. exact Grid_gen_proofs.limit_tile_generated. Qed.
+
+Theorem create_tile_list_is_generated :
+  forall xs ys l gs, gen_create_tile_list xs ys l gs = create_tile_list xs ys l gs.
+Proof. exact Grid_gen_proofs.create_tile_list_generated. Qed.
